@@ -592,3 +592,87 @@ func ruleConfigRootAgreesWithLayout(p *Program, r *Report) {
 }
 
 func init() { register("C15", Rule{"R15d", ruleConfigRootAgreesWithLayout}) }
+
+// R15e: archive locations are functions of the import text alone.  The runtime finds a bundled file by re-deriving
+// its location from what the script says (the import path, the URL as written, the module name), so a recorder must
+// be handed a location computed from those — parameters of the importer combined by string/path functions and the
+// bundle configuration — and never from what the environment answered (the URL a redirect ended at, a directory
+// listing, file contents).
+func ruleRecordedLocationFromImportText(p *Program, r *Report) {
+	r.Begin("R15e", "recorded location = function of the import text: the location/URL argument every importer hands to a recorder (bundleLocalFile, bundleModule, bundleRemoteFile, addModuleSentinel) is built only from the importer's parameters, constants, the module resolution results and string/path functions — not from an HTTP response or other environment reads, which the bundle run cannot repeat", 3)
+	defer r.End()
+	recorders := map[*ssa.Function]bool{}
+	for _, n := range []string{"bundleLocalFile", "bundleModule", "bundleRemoteFile", "addModuleSentinel"} {
+		if f := p.Func("syntax", n); f != nil {
+			recorders[f] = true
+		}
+	}
+	if len(recorders) < 3 {
+		r.Undecided("anchor", "recorder functions of package syntax not found", 0)
+		return
+	}
+	envCall := func(c *ssa.Call) (string, bool) {
+		cc := &c.Call
+		if cc.IsInvoke() {
+			return "", false
+		}
+		g := cc.StaticCallee()
+		if g == nil || g.Pkg == nil {
+			return "", false
+		}
+		pp := g.Pkg.Pkg.Path()
+		switch {
+		case strings.HasPrefix(pp, "net/"), pp == "net", pp == "io", pp == "io/ioutil", pp == "bufio":
+			return g.String(), true
+		case pp == "os" && g.Name() != "Getenv":
+			return g.String(), true
+		case strings.HasSuffix(pp, "afero") && (strings.HasPrefix(g.Name(), "Read") || g.Name() == "Walk"):
+			return g.String(), true
+		}
+		return "", false
+	}
+	n := 0
+	for _, fn := range p.RepoFns {
+		if PkgPathOf(fn) != Mod+"/syntax" || recorders[fn] {
+			continue
+		}
+		ForEachInstr(fn, func(ins ssa.Instruction) {
+			c, ok := ins.(*ssa.Call)
+			if !ok || !recorders[c.Call.StaticCallee()] {
+				return
+			}
+			for i, a := range c.Call.Args {
+				if b, isB := a.Type().Underlying().(*types.Basic); !isB || b.Kind() != types.String {
+					continue
+				}
+				n++
+				r.Fn(FnName(fn))
+				key := fmt.Sprintf("location@%s→%s#%d", FnName(fn), c.Call.StaticCallee().Name(), i)
+				src := ""
+				DependsOn(a, func(x ssa.Value) bool {
+					switch y := x.(type) {
+					case *ssa.Call:
+						if what, is := envCall(y); is && src == "" {
+							src = what
+						}
+					case *ssa.UnOp:
+						// a load through a pointer obtained from the environment (resp.Request.URL)
+						if fa, ok := y.X.(*ssa.FieldAddr); ok {
+							tn := TypeName(Deref(fa.X.Type()))
+							if strings.HasPrefix(tn, "net/") && src == "" {
+								src = "field of " + tn
+							}
+						}
+					}
+					return false
+				})
+				r.Check(src == "", key, "computed from the import text and module resolution only", fmt.Sprintf("%s records an archive entry under a location that depends on %s: the bundle run re-derives the location from the import as written in the script and cannot repeat that answer, so it will not find the file", FnName(fn), src), c.Pos())
+			}
+		})
+	}
+	if n < 3 {
+		r.Undecided("sites", fmt.Sprintf("only %d recorder calls with a location argument found", n), 0)
+	}
+}
+
+func init() { register("C15", Rule{"R15e", ruleRecordedLocationFromImportText}) }
